@@ -92,12 +92,13 @@ RULE = ('case = one random search space (gen/spaces.random_space with floats, '
         'after every node and every bare run. Non-trivial = the space has a multi-choice or a '
         'conditional sub-space and at least half of the applications produced '
         'a checked output; distinct by (space, operator sequence).')
-REQUIRED_COUNTERS = ['history_checks', 'member_checks', 'aligned_checks', 'view_checks',
+REQUIRED_COUNTERS = ['hash_seed_operator_compares', 'history_checks', 'member_checks', 'aligned_checks', 'view_checks',
                      'selector_identity_checks', 'selector_count_checks',
                      'routing_checks', 'input_unchanged_checks',
                      'determinism_checks', 'global_rng_checks',
                      'crossover_semantics_checks']
 ASSUMPTIONS = [
+    'determinism across processes: once per run (shard 0) a fixed family of seeded recombinators is applied to two parents whose custom decision point holds strings, in three subprocesses with PYTHONHASHSEED=1,2,3; the printed children must be identical, order included (the in-process comparisons run under the pinned hash seed of ./check and cannot see hash-order effects)',
     'membership oracle = monitors/genoref.py (arity, range, distinct, sorted, conditional sub-space, float range, str genome, canonical tree shape)',
     'alignment: the decision point id of the i-th valued node equals the id of the i-th reference decision (reference ids are cross-checked against spec.decision_points per case), and to_dict views equal those of DNA.from_numbers(numbers, spec)',
     'parents are built by the library from reference-sampled members (from_numbers / DNA(nested, spec=)); their validity is the subject of C11/C12',
@@ -2406,8 +2407,82 @@ def cases(ctx):
   return int(ctx.params['cases'])
 
 
+# ------------------------------------------- determinism across processes ---
+# "Seeded operators are deterministic functions of their seed and inputs": the
+# same seeded operator applied to the same parents must give the same children
+# IN THE SAME ORDER in every process. ./check pins PYTHONHASHSEED, so the
+# comparison within one process cannot see an order that depends on the hash of
+# a str decision (custom decision points hold strings); this probe runs the
+# same small script under several hash seeds and compares what it prints.
+_HASH_SEED_SCRIPT = r'''
+import sys
+sys.path.insert(0, %(repo)r)
+import pyglove as pg
+from pyglove.ext.evolution import recombinators as R, mutators as M
+g = pg.geno
+C = lambda n: [g.constant()] * n
+sp = g.space([g.custom(), g.manyof(4, C(4), distinct=True, sorted=False),
+              g.manyof(4, C(4), distinct=True, sorted=False), g.oneof(C(3))])
+ps = [pg.DNA([%(s1)r, [0, 1, 2, 3], [1, 2, 3, 0], 0], spec=sp),
+      pg.DNA([%(s2)r, [3, 2, 1, 0], [0, 3, 2, 1], 2], spec=sp)]
+ops = [('recombinators.PartiallyMapped', R.PartiallyMapped(seed=%(seed)d)),
+       ('recombinators.Order', R.Order(seed=%(seed)d)),
+       ('recombinators.Cycle', R.Cycle(seed=%(seed)d)),
+       ('recombinators.Uniform', R.Uniform(seed=%(seed)d)),
+       ('recombinators.Sample', R.Sample(lambda xs: [1.0] * len(xs), seed=%(seed)d)),
+       ('recombinators.KPoint', R.KPoint(2, seed=%(seed)d))]
+for name, op in ops:
+  try:
+    out = [str(d) for d in op([p.clone(deep=True) for p in ps])]
+  except Exception as e:  # inapplicable here: the same in every process
+    out = ['<' + type(e).__name__ + '>']
+  print(name + '\t' + repr(out))
+'''
+
+
+def hash_seed_probe(ctx):
+  import os, subprocess, sys
+  from pgverif import run as RUN
+  rng, c = ctx.rng, ctx.counters
+  words = ['abc', 'xyz', 'q', 'Zed', 'm7', 'hello world']
+  s1 = rng.choice(words)
+  s2 = rng.choice([w for w in words if w != s1] + [s1])
+  script = _HASH_SEED_SCRIPT % dict(repo=RUN.REPO, s1=s1, s2=s2, seed=rng.randint(0, 99))
+  procs = [subprocess.Popen([sys.executable, '-B', '-c', script],
+                            env=dict(os.environ, PYTHONHASHSEED=str(h)),
+                            stdout=subprocess.PIPE, stderr=subprocess.PIPE, text=True)
+           for h in (1, 2, 3)]
+  outs = []
+  for pr in procs:
+    try:
+      o, e = pr.communicate(timeout=300)
+    except subprocess.TimeoutExpired:
+      pr.kill()
+      c['hash_seed_probe_timeouts'] += 1
+      return
+    if pr.returncode != 0:
+      c['hash_seed_probe_failed'] += 1
+      ctx.notes['hash_seed_probe_stderr'] = e[-600:]
+      return
+    outs.append(dict(l.split('\t', 1) for l in o.strip().splitlines() if '\t' in l))
+  c['hash_seed_probes'] += 1
+  for name in outs[0]:
+    vals = [o.get(name) for o in outs]
+    c['hash_seed_operator_compares'] += 1
+    if len(set(vals)) > 1:
+      same_set = len({repr(sorted(eval(v))) for v in vals}) == 1  # pylint: disable=eval-used
+      ctx.violation(
+          'nondeterministic',
+          name + (':hash-seed[child-order]' if same_set else ':hash-seed'),
+          'the same seeded operator on the same parents (a custom decision point '
+          f'holds the strings {s1!r} / {s2!r}) gives under PYTHONHASHSEED=1,2,3:\n'
+          + '\n'.join(vals), {'script': script})
+
+
 def run_case(ctx, i):
   rng, c = ctx.rng, ctx.counters
+  if i == 0 and getattr(ctx, 'shard', 0) == 0:
+    hash_seed_probe(ctx)
   desc = gen_space(rng)
   case = {'space': S.show(desc)}
   ctx.label = 'build-spec'
